@@ -147,6 +147,15 @@ pub struct ReplayFile {
     pub scenario: Value,
 }
 
+/// Where evidence/ and replays/ go. /verif unless VERIF_OUT_DIR is set (exploratory
+/// background sweeps must not overwrite the evidence of the registered checks).
+pub fn out_dir() -> String {
+    match std::env::var("VERIF_OUT_DIR") {
+        Ok(s) if !s.trim().is_empty() => s,
+        _ => "/verif".to_string(),
+    }
+}
+
 pub fn scenario_size<T: Serialize>(sc: &T) -> usize {
     serde_json::to_string(sc).map(|s| s.len()).unwrap_or(0)
 }
@@ -207,8 +216,8 @@ pub fn write_replay<E: Engine>(
     v: &Violation,
     steps: u64,
 ) -> String {
-    let dir = "/verif/replays";
-    let _ = std::fs::create_dir_all(dir);
+    let dir = format!("{}/replays", out_dir());
+    let _ = std::fs::create_dir_all(&dir);
     let path = format!("{}/{}-{}-{}.json", dir, e.property(), base_seed, index);
     let rf = ReplayFile {
         property: e.property().to_string(),
